@@ -384,7 +384,8 @@ def prop_units(prop, index):
                 if q in ('Self', 'self', 'super', 'crate'):
                     sel = [c for c in cands if c['file'] == u['file']]
                 else:
-                    sel = [c for c in cands if metas[c['uid']][1] == q or engine.module_of(c['file']).split('::')[-1] == q]
+                    # (a module may re-export a file module: `blake2b::longhash` lives in blake2b::blake2b_soft / blake2b_simd)
+                    sel = [c for c in cands if metas[c['uid']][1] == q or q in engine.module_of(c['file']).split('::')]
             elif dot:
                 # `.name(..)`: the receiver's type is unknown here; only the container-trait methods are resolved (to every impl)
                 # ... and only for the properties whose statement quantifies over the byte containers
